@@ -1430,7 +1430,10 @@ def run(ctx):
     rep.setcount('write_sites', len(sites))
     rep.setcount('m4_symbols_with_conditions', nsym)
     rep.setcount('condition_atoms_with_witness_symbol', len(symmap))
-    if len(sites) < 16: rep.broken('only %d yytbl_data_fwrite call sites found in flex; 16 were confirmed by hand' % len(sites))
+    # floor on what is written, not on how many call sites write it: three sites write the same equivalence-class table
+    # today and a helper may merge them (neutral diff m3P1); all 12 table ids must still reach yytbl_data_fwrite
+    if len(all_written) < 12 or len(sites) < 12:
+        rep.broken('only %d table ids (%d yytbl_data_fwrite call sites) found in flex; 12 ids were confirmed by hand' % (len(all_written), len(sites)))
     undec = [s_ for s_ in sites if not s_[3]]
     for s_ in undec: rep.note('conditions of write site %s are only partly decoded' % where(s_[0]))
     if len(undec) > 2: rep.broken('%d write sites with undecodable conditions' % len(undec))
